@@ -17,13 +17,25 @@ def showNs : Option Ns → String
   | some .empty => "E"
   | some (.uri u) => "U" ++ showText u
 
-def showItem (i : Item) : String := s!"{i.typ}:{showText i.val}:{showNs i.ns}"
+def itName : IT → String
+  | .comment => "COMMENT" | .s => "S" | .descendant => "descendant" | .universal => "universal"
+  | .typesel => "type-selector" | .negtypesel => "negation-type-selector" | .attrsel => "attribute-selector"
+  | .attrvalue => "attribute-value" | .attrstart => "attribute-start" | .attrend => "attribute-end"
+  | .equals => "equals" | .prefixmatch => "prefixmatch" | .suffixmatch => "suffixmatch"
+  | .substringmatch => "substringmatch" | .dashmatch => "dashmatch" | .includes => "includes"
+  | .string => "STRING" | .ident => "IDENT" | .number => "NUMBER" | .dimension => "DIMENSION"
+  | .cls => "class" | .id => "id" | .pclass => "pseudo-class" | .pelem => "pseudo-element"
+  | .negstart => "negation-start" | .negend => "negation-end" | .funcend => "function-end"
+  | .plus => "plus" | .minus => "minus" | .child => "child" | .adjacent => "adjacent-sibling"
+  | .following => "following-sibling" | .keyError => "KeyError"
+
+def showItem (i : Item) : String := s!"{itName i.typ}:{showText i.val}:{showNs i.ns}"
 
 /-- `sel <nsmap> <text>` -/
 def opSel (ns hex : String) : String :=
   match parseNsMap ns, parseText hex with
   | some m, some t =>
-    let toks := (tokenize Gen.tables ⟨false, true⟩ t).toks.map (fun k => (k.typ, k.val))
+    let toks := (tokenize Gen.tables ⟨false, true⟩ t).toks.map (fun k => (TT.ofString k.typ, k.val))
     let r := parse Gen.tables m toks
     if r.wellformed then
       s!"ok;{r.spec.1},{r.spec.2.1},{r.spec.2.2};{" ".intercalate (r.items.map showItem)}"
